@@ -476,5 +476,8 @@ def run(tier="quick", root="/repo", evidence_dir=None, quiet=False):
     repo = get_repo(root)
     for rule in (rule_r1, rule_r2, rule_r3, rule_r4, rule_r5):
         rep.attempt(rule, rep, repo)
+    # R6: per-atom quantities (radii, pro-atoms, segments) are addressed in the index space of the atoms
+    from gridlint import e9
+    rep.attempt(e9.rule_index_spaces, rep, repo, ("becke", "hirshfeld"), "R6.index-space", 2)
     rep.extra["source_digest"] = repo.digest(["becke", "hirshfeld"])
     return rep.finish(evidence_dir=evidence_dir, quiet=quiet)
